@@ -100,8 +100,10 @@ def world2pixel_single_axis(wcs, *world, pixel_axis=None):
     world_new = []
 
     # Now find all the world coordinates that are needed to calculate this
-    # world coordinate, using the axis correlation matrix
-    world_dep = wcs.axis_correlation_matrix[:, pixel_axis]
+    # pixel coordinate: the axis correlation matrix only tells us which world
+    # coordinates depend on this pixel coordinate, so we need all the world
+    # coordinates that are coupled to it directly or indirectly.
+    world_dep = _coupled_axes(wcs, pixel_axes=[pixel_axis])[1]
 
     for iw, w in enumerate(world):
         if world_dep[iw]:
@@ -160,19 +162,47 @@ def world_axis(wcs, data, *, pixel_axis=None, world_axis=None):
                                         world_axis=world_axis)
 
 
+def _coupled_axes(wcs, pixel_axes=(), world_axes=()):
+    """
+    Find all the pixel and world axes that are coupled, directly or through
+    other axes, to the given pixel and/or world axes.
+
+    The axis correlation matrix only states which world axes depend on which
+    pixel axes, so the axes that matter for a given axis are all those in the
+    same block of that matrix (this is also the non-zero pattern of the inverse
+    transformation). Indices are in the order of the axis correlation matrix.
+
+    Returns two boolean arrays: the coupled pixel axes and the coupled world axes.
+    """
+    matrix = np.asarray(wcs.axis_correlation_matrix, dtype=bool)
+    world = np.zeros(matrix.shape[0], dtype=bool)
+    pixel = np.zeros(matrix.shape[1], dtype=bool)
+    world[list(world_axes)] = True
+    pixel[list(pixel_axes)] = True
+    while True:
+        new_world = world | matrix[:, pixel].any(axis=1)
+        new_pixel = pixel | matrix[new_world, :].any(axis=0)
+        if np.array_equal(new_world, world) and np.array_equal(new_pixel, pixel):
+            return pixel, world
+        world, pixel = new_world, new_pixel
+
+
 def dependent_axes(wcs, axis):
     """
-    Return a tuple of which world-axes are non-independent
-    from a given pixel axis
+    Return a tuple of which axes are non-independent from a given axis, that
+    is, all the pixel and world axes that are coupled (directly or through
+    other axes) to the pixel axis or the world axis with that index.
 
     The axis index is given in numpy ordering convention (note that
     opposite the fits convention)
     """
     if isinstance(wcs, LegacyCoordinates):
         return (axis,)
-    matrix = wcs.axis_correlation_matrix[::-1, ::-1]
-    world_dep = matrix[:, axis:axis + 1]
-    return tuple(np.nonzero((world_dep & matrix).any(axis=0))[0])
+    pixel, world = _coupled_axes(wcs,
+                                 pixel_axes=[wcs.pixel_n_dim - 1 - axis],
+                                 world_axes=[wcs.world_n_dim - 1 - axis])
+    coupled = set(np.nonzero(pixel[::-1])[0]) | set(np.nonzero(world[::-1])[0])
+    return tuple(sorted(coupled))
 
 
 def _get_ndim(header):
